@@ -11,6 +11,14 @@ claimed = {
    text="All operation histories up to depth 4 (quick) / 5 (thorough) over accept, hook reject, colliding and fresh SetID, call, local close, remote close, cut and peer close are executed on real peers and the lifecycle/index invariants are evaluated in every quiescent state; all interleavings (preemption bound 2/3) of Close against remote close, cut, a second Close and of colliding SetIDs are explored with a status observer.",
    note="Trusted base: vinstr + shims; 2-3 connections; no redial; dial path covered by C13.",
    technique="explicit-state enumeration of operation histories on the implementation + stateless schedule exploration with preemption bound and happens-before state caching"),
+ "C01": dict(category="model_checking", design="DESIGN.md §3 C01",
+   text="Concurrent tagged Call/AsyncCall/Push operations (2-3 threads; one session, both directions, two sessions) are run under every interleaving up to the preemption bound on real peers; the complete protocol x body-codec x filter-pipe product (96 configurations) is explored at bound 0 (all non-preemptive schedules), the raw/json configuration at bound 1 (quick) and 7 configurations at bound 2 (thorough). Oracles compare every result, reply metadata, handler input and push input with the sender's tag, re-read handler inputs after a yield, and compare the multiset handled with the multiset sent.",
+   note="Trusted base: vinstr + shims; LIFO pools (adversarial for reuse); http protocol and websocket mixers not covered.",
+   technique="stateless model checking of the implementation: DFS over schedules with preemption bound + happens-before state caching"),
+ "C08": dict(category="model_checking", design="DESIGN.md §3 C08",
+   text="Session.Close and Peer.Close are placed at every point (all interleavings up to the preemption bound) of the handler-entry / handler-step / reply-write / reply-arrival timeline for an inbound and an outbound call; the order of handler entry/exit, reply write, Close call and Close return is part of the explored state and the oracle is evaluated on that event log.",
+   note="Trusted base: vinstr + shims; one call per direction in quick tier, bound 1 (quick) / 2 (thorough).",
+   technique="stateless model checking of the implementation: DFS over schedules with preemption bound + happens-before state caching"),
 }
 pending = {}
 for i in range(1, 21):
